@@ -161,3 +161,8 @@ func VerifTick(t *Torrent, on bool) {
 
 // VerifForget drops the ticker registration of t.
 func VerifForget(t *Torrent) { verifTickerMap.Delete(t) }
+
+// VerifRegister makes a torrent that is stepped without its event loop
+// visible to tor.Get (and so to the front-ends); VerifUnregister undoes it.
+func VerifRegister(t *Torrent) bool { return add(t) }
+func VerifUnregister(t *Torrent)    { del(t.Hash) }
